@@ -6,7 +6,7 @@
    the correspondence (the extracted model is the reference verifier). *)
 From Coq Require Import ZArith List.
 From GoIpa Require Import Model.Bytes Model.Alg Model.Transcript Model.Bary Model.Banderwagon Model.IPA Model.Multiproof
-  Proofs.AlgLaws Proofs.MultiproofProofs Proofs.IPAProofs.
+  Proofs.AlgLaws Proofs.MultiproofProofs Proofs.IPAProofs Proofs.ReprProofs.
 Import ListNotations.
 
 (* CheckMultiProof returns an error exactly when: the numbers of commitments, values and
@@ -51,3 +51,23 @@ Theorem C02_folding_scalars_are_the_recursive_fold :
     folding_scalars fo (length xis) xis (2 ^ length xis) = fs_spec fo xis.
 Proof. intros F fo FL. exact (folding_scalars_spec fo FL). Qed.
 Print Assumptions C02_folding_scalars_are_the_recursive_fold.
+
+(* changing only the representation of group-element inputs never changes the decision:
+   for ANY relation eqv that is a congruence for the group operations and is respected by
+   the encoding and by Equal (for Banderwagon: same class, any projective representation,
+   C07/C08), replacing every commitment, D, L_j, R_j by an equivalent element leaves the
+   whole result of CheckMultiProof (decision, error, final transcript) unchanged *)
+Theorem C02_representation_invariant :
+  forall (F G : Type) (fo : FOps F) (go : GOps F G) (hashf : list Z -> list Z) (eqv : G -> G -> Prop),
+  (forall a, eqv a a) ->
+  (forall a a' b b', eqv a a' -> eqv b b' -> eqv (gadd go a b) (gadd go a' b')) ->
+  (forall s p p', eqv p p' -> eqv (gmul go s p) (gmul go s p')) ->
+  (forall a a', eqv a a' -> eqv (gneg go a) (gneg go a')) ->
+  (forall a a', eqv a a' -> genc go a = genc go a') ->
+  (forall a a' b b', eqv a a' -> eqv b b' -> geqb go a b = geqb go a' b') ->
+  forall t cfg cs cs' D D' L L' R R' a ys zs,
+    Forall2 eqv cs cs' -> eqv D D' -> Forall2 eqv L L' -> Forall2 eqv R R' ->
+    mp_check fo go hashf t cfg (mkMP (mkIPA L R a) D) cs ys zs
+    = mp_check fo go hashf t cfg (mkMP (mkIPA L' R' a) D') cs' ys zs.
+Proof. intros F G fo go hashf eqv H1 H2 H3 H4 H5 H6. exact (mp_check_compat fo go hashf eqv H1 H2 H3 H4 H5 H6). Qed.
+Print Assumptions C02_representation_invariant.
